@@ -35,6 +35,20 @@ ARENA_FAMILIES = {
         fns=["memset_s", "memset16_s", "memset32_s", "memzero_s", "memzero16_s", "memzero32_s",
              "strzero_s", "strset_s", "strnset_s", "wcsset_s", "wcsnset_s"],
         quick=dict(N=6, K=3, BosMode=0), thorough=dict(N=8, K=5, BosMode=1), props={"C01", "C02", "C03", "C05", "C06", "C08"}),
+    "query2": dict(
+        fns=["strcmp_s", "strcasecmp_s", "strcoll_s", "strcmpfld_s", "wcscmp_s", "wcsncmp_s", "memcmp_s", "memcmp16_s", "memcmp32_s", "wmemcmp_s",
+             "strstr_s", "strcasestr_s", "wcsstr_s", "strpbrk_s", "strspn_s", "strcspn_s", "strfirstdiff_s", "strfirstsame_s",
+             "strlastdiff_s", "strlastsame_s", "strprefix_s"],
+        quick=dict(N=6, K=2, BosMode=0, QA=1), thorough=dict(N=7, K=3, BosMode=0, QA=1), props={"C10"}, flavours=("slack",)),
+    "query2_small": dict(
+        fns=["strcmp_s", "strcasecmp_s", "strcoll_s", "strcmpfld_s", "wcscmp_s", "wcsncmp_s", "memcmp_s", "memcmp16_s", "memcmp32_s", "wmemcmp_s",
+             "strstr_s", "strcasestr_s", "wcsstr_s", "strpbrk_s", "strspn_s", "strcspn_s", "strfirstdiff_s", "strfirstsame_s",
+             "strlastdiff_s", "strlastsame_s", "strprefix_s"],
+        quick=dict(N=5, K=2, BosMode=0, QA=0), thorough=dict(N=6, K=2, BosMode=1, QA=1), props={"C01", "C02", "C05"}, flavours=("slack",)),
+    "query1": dict(
+        fns=["strnlen_s", "wcsnlen_s", "strisalphanumeric_s", "strisascii_s", "strisdigit_s", "strishex_s", "strislowercase_s",
+             "strismixedcase_s", "strisuppercase_s", "strchr_s", "strrchr_s", "strfirstchar_s", "strlastchar_s", "memchr_s", "memrchr_s"],
+        quick=dict(N=6, K=2, BosMode=0, QA=1), thorough=dict(N=8, K=3, BosMode=1, QA=1), props={"C01", "C02", "C05", "C10"}, flavours=("slack",)),
     "xform": dict(
         fns=["strtolowercase_s", "strtouppercase_s", "wcslwr_s", "wcsupr_s", "strljustify_s", "strremovews_s", "strnterminate_s"],
         quick=dict(N=6, K=3, BosMode=0), thorough=dict(N=8, K=4, BosMode=1), props={"C01", "C02", "C03", "C05", "C06"}),
@@ -76,13 +90,14 @@ def run_arena(prop, tier, seed, workdir, families=None):
     for fam in fams:
         d = ARENA_FAMILIES[fam]
         scope = dict(d[tier])
+        scope.setdefault("QA", 1)
         scope["Fns"] = set(d["fns"])
         cases, st = arena.gen_cases(fam, scope, workdir)
         scopes[fam] = {k: (sorted(v) if isinstance(v, set) else v) for k, v in scope.items()}
         states += st["distinct"]
         transitions += st["states"]
         ncases += len(cases)
-        n, bad, meta = arena.execute_and_judge(cases, workdir)
+        n, bad, meta = arena.execute_and_judge(cases, workdir, flavours=d.get("flavours", ("slack", "noslack")))
         total_events += n
         for ci, c in enumerate(cases):
             # non-trivial: a usable destination and a source, i.e. the call gets past the argument checks
@@ -125,7 +140,7 @@ def run_arena_and_printf(prop, tier, seed, workdir):
 
 
 ENGINES = {"C13": handlers.run, "C14": tok.run, "C09": printf.run_c09, "C11": printf.run_c11}
-for _p in ("C02", "C06", "C07"):
+for _p in ("C02", "C06", "C07", "C10"):
     ENGINES[_p] = run_arena
 for _p in ("C01", "C03", "C04", "C05", "C08"):
     ENGINES[_p] = run_arena_and_printf
